@@ -4,7 +4,7 @@ set -u
 patch=$(readlink -f "$1"); id=$2; tier=${3:-quick}
 wt=/tmp/wt-seed-$$
 git -C /repo worktree add --detach "$wt" HEAD >/dev/null 2>&1 || exit 3
-if ! git -C "$wt" apply "$patch"; then echo "PATCH DOES NOT APPLY"; git -C /repo worktree remove --force "$wt"; exit 3; fi
+if ! git -C "$wt" apply "$patch" 2>/dev/null && ! git -C "$wt" apply --3way "$patch"; then echo "PATCH DOES NOT APPLY"; git -C /repo worktree remove --force "$wt"; exit 3; fi
 cd /verif && VERIF_REPO="$wt" bin/check "$id" "$tier"; rc=$?
 for f in /verif/replays/$id-$tier-*.json; do [ -f "$f" ] && python3 - "$f" <<'P'
 import json,sys
